@@ -41,10 +41,20 @@ def cases(tier):
                     for cb in ([], ['aes128-cbc']) if ctx == 'unrecognised' else ([],):
                         for et in ([], ['hmac-sha2-256-etm@openssh.com'], ['hmac-sha2-256-etm@openssh.com', 'hmac-sha2-512-etm@openssh.com']):
                             out.append((role, marker, tuple(ch), tuple(cb), tuple(et), ctx))
+    # names the database does not know standing before, between and after the names it knows, family by family: what is said about one
+    # name of a list does not depend on its neighbours
+    dch = [n for n in enc if T.is_chacha(n)][0]
+    for role in ('server', 'client'):
+        for marker in ('none', 'own', 'other', 'both'):
+            for ch in ([], [UNK_CHACHA, dch], [dch, UNK_CHACHA]):
+                for cb in ([], [UNK_CBC, db_cbc[0]], [db_cbc[0], UNK_CBC], [db_cbc[0], UNK_CBC, db_cbc[1]]):
+                    for et in ([], [UNK_ETM, db_etm[0]], [db_etm[0], UNK_ETM], [db_etm[0], UNK_ETM, db_etm[1]]):
+                        if ch or cb or et:
+                            out.append((role, marker, tuple(ch), tuple(cb), tuple(et), 'mixed'))
     return out
 
 
-CTX_BANNER = {'default': b'SSH-2.0-OpenSSH_9.6', 'unrecognised': b'SSH-2.0-AcmeSSH_1.0', 'flawless': b'SSH-2.0-OpenSSH_9.6'}
+CTX_BANNER = {'default': b'SSH-2.0-OpenSSH_9.6', 'mixed': b'SSH-2.0-OpenSSH_9.6', 'unrecognised': b'SSH-2.0-AcmeSSH_1.0', 'flawless': b'SSH-2.0-OpenSSH_9.6'}
 
 
 def banner_of(case):
